@@ -9,4 +9,7 @@ type Type struct {
 	Schema   *ISchema
 	RootFile *fs.File
 	Begin    bytes.Index
+
+	// Seq tells in which order the types of one schema were added to it.
+	Seq int
 }
